@@ -46,6 +46,7 @@ static Json execute(const Plan &plan, bool verbose)
     c.verbose = verbose;
     c.strict_enomem = plan.cfg.geti("strict_enomem", 0) != 0;
     c.c11 = plan.cfg.geti("c11", 0) != 0;
+    c.no_retry = plan.cfg.geti("no_retry", 0) != 0;
     arm_timer(g_hang_seconds);
     eng->run(c, plan);
     arm_timer(0);
@@ -85,7 +86,7 @@ static Json execute_twin(const Plan &plan, bool verbose)
     Json base = execute(clean, false);
     if (base.has("v")) return base;
     Json res = execute(plan, verbose);
-    if (!res.has("v") && res.gets("h") != base.gets("h")) {
+    if (!res.has("v") && res.gets("h") != base.gets("h") && plan.cfg.geti("no_retry", 0) == 0) {
 	Json v = Json::obj();
 	long j = -1;
 	for (size_t k = 0; k < plan.ops.size(); ++k) if (!plan.ops[k].f.empty()) { j = (long)k; break; }
@@ -198,7 +199,8 @@ int main(int argc, char **argv)
 	    long failed_by = 0;
 	    if (const Json *st = res.find("st")) { for (auto &p : st->o) agg[p.first] += (long)p.second.i; failed_by = (long)st->geti("probe.failed_by_fault"); }
 	    if (failed_by) ++nontrivial;
-	    bool bad = res.has("v") || res.gets("h") != hA;
+	    // (without re-issue the history legitimately differs from the fault-free one: only the engine's own oracles decide)
+	    bool bad = res.has("v") || (res.gets("h") != hA && plan.cfg.geti("no_retry", 0) == 0);
 	    if (bad) {
 		Json line = Json::obj();
 		line["r"] = run; line["j"] = (long)j; line["k"] = k; line["h"] = res.gets("h"); line["hA"] = hA;
